@@ -34,6 +34,16 @@ PYFOLD = {"+": operator.add, "-": operator.sub, "*": operator.mul, "/": operator
 
 STATIC_HEADS = ("sym", "glob")
 
+_LB = ("list", ("z3", "BoolRef"))
+_LA = ("list", ("z3", "ArithRef"))
+# result types of repository helpers kept opaque at their call sites (their bodies are checked by R-SORT-NET / R-MINMAX)
+OPAQUE_RETURN_TYPES = {
+    "util.sort_no_duplicates": ("tuple", (_LA, _LB)),
+    "util.sort_duplicates": ("tuple", (_LA, _LB)),
+    "util.get_maximum": _LB,
+    "util.get_minimum": _LB,
+}
+
 # declared annotations that are known to be inaccurate; each override is justified by the single writer of the
 # registry (checked by R-DUP-NAME / C18): add_objective(objective: Objective) is the only writer of `objectives`
 FIELD_TYPE_OVERRIDES = {
@@ -175,6 +185,8 @@ class ExprMixin:
             return None
         if k == "list":
             return ("list", ("prim", "any"))
+        if k == "call" and t[1] in OPAQUE_RETURN_TYPES:
+            return OPAQUE_RETURN_TYPES[t[1]]
         if k == "mcall":
             bt = self.typeof(t[1])
             if bt is not None and t[2] in ("values", "keys", "items", "copy"):
@@ -513,6 +525,10 @@ class ExprMixin:
         if ty is None:
             if k == "app" and x[1] in ("<", "<=", ">", ">=", "==", "!="):
                 return want_bool if (want_bool or want_list) and len(names) == 1 else None
+            if k == "app" and x[1] in Z3_OPS and names == ("list",):
+                return False            # a z3 expression is not a python list
+            if k in ("z3var", "fresh") and names == ("list",):
+                return False
             return None
         alts = P.type_alternatives(ty)
         res = set()
